@@ -243,7 +243,10 @@ class Builder:
         self.tree, self.modes, self.ctx = tree, modes, ctx
         # var_scope 'shadow': variables and vals are local to main and hide global vals of the same names
         self.shadow = (var_scope == 'shadow' and ctx != 'ret')
-        if var_scope == 'shadow':
+        # var_scope 'decoy': the vals are global, and a procedure defined BEFORE their uses declares local vals of the
+        # same names with other values (a local val must not leak into later procedures)
+        self.decoy = (var_scope == 'decoy')
+        if var_scope in ('shadow', 'decoy'):
             var_scope = 'local'
         self.var_scope = var_scope if ctx not in ('ret',) else 'global'
         self.var_init = var_init
@@ -326,8 +329,37 @@ class Builder:
                 gl += [('var', name) for name, _ in self.vars]
             else:
                 main_locals += [('var', name) for name, _ in self.vars]
+        if self.decoy and self.vals:
+            procs.append({'kind': 'proc', 'name': 'decoy', 'formals': [],
+                          'locals': [('val', d[1], _num(wrap(11 * i + 1234567))) for i, d in enumerate(self.vals)] + [('var', 'w')],
+                          'body': ('assign', 'w', ('var', self.vals[-1][1]))})
         body = self.init_stmts()
-        if ctx == 'assign':
+        if ctx.startswith('callrep/'):
+            # r := pick(K, .., idf(E), .., K): equal constants K around an actual that contains a call
+            _, pattern, wrapcall, kval, kspell = ctx.split('/')
+            kval = int(kval)
+            is_ref = all(m[0] == 'v' for m in self.modes)
+            if is_ref:
+                gl.append(('var', 'kk'))
+                body = [('assign', 'kk', _num(kval))] + body
+                kexpr = ('var', 'kk')
+            elif kspell == 'val':
+                gl.insert(0, ('val', 'kc', _num(kval)))
+                kexpr = ('var', 'kc')
+            else:
+                kexpr = _num(kval)
+            n = len(pattern)
+            procs.append({'kind': 'func', 'name': 'idf', 'formals': [('val', 'a')], 'locals': [], 'body': ('return', ('var', 'a'))})
+            terms = []
+            for i in range(n):
+                terms += [('var', 'p%d' % i)] * (i + 1)
+            acc = terms[-1]
+            for t in reversed(terms[:-1]):
+                acc = ('bin', '+', t, acc)
+            procs.append({'kind': 'func', 'name': 'pick', 'formals': [('val', 'p%d' % i) for i in range(n)], 'locals': [], 'body': ('return', acc)})
+            actuals = [kexpr if c == 'K' else (('call', 'idf', [e]) if wrapcall == 'c' else e) for c in pattern]
+            body += [('assign', 'r', ('call', 'pick', actuals)), ('sys', 0, [('var', 'r')])]
+        elif ctx == 'assign':
             body += [('assign', 'r', e), ('sys', 0, [('var', 'r')])]
         elif ctx == 'exit':
             body += [('sys', 0, [e])]
@@ -365,6 +397,8 @@ def ref_modes(tree):
 
 
 def ctx_ok(tree, ctx):
+    if ctx.startswith('callrep/'):
+        return True
     if ctx in ('ifc', 'whilec'):
         return is_bool_tree(tree)
     if ctx == 'sub':
@@ -516,8 +550,18 @@ class Gen:
             out.append([('v',) if c == 'v' else self.spelling(lv[i]) for i, c in enumerate(m)])
         return out
 
+    def callrep_context(self):
+        r = self.rng
+        n = r.randrange(2, 6)
+        pos = r.randrange(n)
+        pattern = ''.join('E' if i == pos else 'K' for i in range(n))
+        k = r.choice((0, 1, 5, -1, 65535, 65536, 70000, -65536, -70000, INT_MAX, INT_MIN, r.randrange(-300, 300)))
+        return 'callrep/%s/%s/%d/%s' % (pattern, 'c' if r.random() < 0.75 else 'n', k, r.choice(('lit', 'val')))
+
     def context(self, tree):
         r = self.rng
+        if r.random() < 0.10:
+            return self.callrep_context()
         for _ in range(8):
             c = r.choice(('assign', 'assign', 'exit', 'exit', 'ifc', 'whilec', 'actual', 'ret', 'sub'))
             if ctx_ok(tree, c):
